@@ -39,9 +39,12 @@ open FileFmt
 def hexVal (c : Char) : Nat :=
   if c.isDigit then c.toNat - '0'.toNat else c.toNat - 'a'.toNat + 10
 
-def hexBytes : List Char → Bytes
-  | a :: b :: t => (UInt8.ofNat (hexVal a * 16 + hexVal b)) :: hexBytes t
-  | _ => []
+/-- tail recursive: members of large DQM files are megabytes of hex -/
+def hexBytesAcc : List Char → Bytes → Bytes
+  | a :: b :: t, acc => hexBytesAcc t ((UInt8.ofNat (hexVal a * 16 + hexVal b)) :: acc)
+  | _, acc => acc.reverse
+
+def hexBytes (cs : List Char) : Bytes := hexBytesAcc cs []
 
 def unhex (s : String) : Bytes := if s = "-" then [] else hexBytes s.toList
 
